@@ -189,6 +189,60 @@ fn object_constructors(cx: &mut Ctx, eng: &mut Engine) {
     }
 }
 
+/// regions that are released *while a panic unwinds*: a refused lock becomes a panic in the caller's own code (`expect`)
+/// or inside the crate (a locked resize), and regions created earlier in the same scope (read-write, read-only,
+/// no-access) are dropped by the unwinding. They must be unprotected, wiped and unlocked as on any other drop.
+fn unwinding(cx: &mut Ctx, idx: &mut u64) {
+    for (variant, len) in [("expect_on_refused_constructor", 48usize), ("expect_on_refused_constructor", 5000), ("refused_locked_resize", 48), ("refused_locked_resize", 4097)] {
+        *idx += 1;
+        if !cx.mine(*idx) {
+            continue;
+        }
+        let pat = pattern(0x77, len);
+        let before = osview::vmlck_kb();
+        // dry run without injection: how many lock requests precede the one to be refused
+        mlock_reset(-1);
+        {
+            let _r1 = HeapBytes::from_slice_into_locked(&pat).unwrap();
+            let _r2 = HeapBytes::from_slice_into_readonly_locked(&pat).unwrap();
+            let _r3 = HeapBytes::from_slice_into_locked(&pat).unwrap().munlock().unwrap().mprotect_noaccess().unwrap();
+            let _r4 = HeapBytes::from_slice_into_locked(&pat).unwrap().munlock().unwrap().mprotect_readonly().unwrap();
+        }
+        let n = mlock_calls();
+        mlock_reset(n as i64);
+        let marker = format!("unwind {}", variant);
+        let r = guard(&marker, || {
+            let mut r1 = HeapBytes::from_slice_into_locked(&pat).unwrap();
+            let _r2 = HeapBytes::from_slice_into_readonly_locked(&pat).unwrap();
+            let _r3 = HeapBytes::from_slice_into_locked(&pat).unwrap().munlock().unwrap().mprotect_noaccess().unwrap();
+            let _r4 = HeapBytes::from_slice_into_locked(&pat).unwrap().munlock().unwrap().mprotect_readonly().unwrap();
+            if variant == "refused_locked_resize" {
+                r1.resize(len * 2 + 5000, 1); // needs a fresh lock: refused -> the crate panics by design
+            } else {
+                let _r5 = HeapBytes::from_slice_into_locked(&pat).expect("refused lock (panic raised by the caller)");
+            }
+        });
+        let refused = mlock_refused();
+        mlock_reset(-1);
+        cx.eval();
+        let c = || json!({"variant":variant,"len":len,"lock_requests_before_refusal":n,"refused":refused});
+        if r.is_ok() || refused == 0 {
+            cx.violation("HARNESS|C19|unwinding_scenario_did_not_panic", c());
+            continue;
+        }
+        let after = osview::vmlck_kb();
+        if after != before {
+            cx.violation("C19|unwinding|locked_pages_left_after_regions_were_dropped_by_unwinding", json!({"VmLck_kB_before":before,"VmLck_kB_after":after,"case":c()}));
+        }
+        let sm = osview::smaps();
+        if sm.iter().any(|v| v.locked) && before == 0 {
+            cx.violation("C19|unwinding|vm_locked_flag_left_after_unwinding", c());
+        }
+        cx.cover("unwinding", variant);
+        cx.key(&format!("unwind {} {}", variant, len));
+    }
+}
+
 pub fn run(cx: &mut Ctx) {
     let use_fork = cx.opt("no_fork").is_none();
     if let Err(e) = osview::selfcheck(use_fork) {
@@ -205,6 +259,10 @@ pub fn run(cx: &mut Ctx) {
         return;
     }
     drop(probe);
+    {
+        let mut uidx = 5_000_000u64;
+        unwinding(cx, &mut uidx);
+    }
     let mut eng = Engine::new("C19", use_fork, cx.opt("no_efault").is_none());
     eng.fork_every = 13;
     drain_events();
